@@ -162,6 +162,16 @@ def main(argv=None):
             return 2
 
     mod = importlib.import_module(PROPS[prop])
+    # scratch: one parent directory per batch under /dev/shm, removed at the end whatever happens
+    import atexit
+    import shutil
+    import tempfile
+    from .props import common as _common
+
+    _common.janitor()
+    parent = tempfile.mkdtemp(prefix="rtverif-batch-", dir=_common.scratch_base())
+    os.environ["RTVERIF_SCRATCH"] = parent
+    atexit.register(shutil.rmtree, parent, True)
     tier = a.tier
     budget = a.budget if a.budget is not None else float(os.environ.get("VERIF_BUDGET_S") or BUDGET[tier])
     workers = a.workers or min(16, os.cpu_count() or 1)
@@ -176,6 +186,7 @@ def main(argv=None):
     def _alarm(signum, frame):
         print("HARNESS-FAULT: wall-clock watchdog fired")
         sys.stdout.flush()
+        shutil.rmtree(parent, True)
         os._exit(2)
 
     signal.signal(signal.SIGALRM, _alarm)
